@@ -337,3 +337,53 @@ def table_obligations(ctx, rule, only_ufuncs=None):
 def norm_ufunc_obligations(ctx, rule):
     n = table_obligations(ctx, rule, NORM_UFUNCS)
     ctx.anchor("norm ufunc table entries", n, 3 * 5 * 3 + 5 * 6)
+
+
+# ---------------------------------------------------------------------------------------
+# dunder methods -> ufunc calls
+# ---------------------------------------------------------------------------------------
+
+DUNDER_SPEC = {
+    "__eq__": ["numpy.equal(self, other)"],
+    "__ne__": ["numpy.not_equal(self, other)"],
+    "__abs__": ["numpy.absolute(self)"],
+    "__add__": ["numpy.add(self, other)"],
+    "__radd__": ["numpy.add(other, self)"],
+    "__iadd__": ["_replace_data(self, numpy.add(self, other))"],
+    "__sub__": ["numpy.subtract(self, other)"],
+    "__rsub__": ["numpy.subtract(other, self)"],
+    "__isub__": ["_replace_data(self, numpy.subtract(self, other))"],
+    "__mul__": ["numpy.multiply(self, other)"],
+    "__rmul__": ["numpy.multiply(other, self)"],
+    "__imul__": ["_replace_data(self, numpy.multiply(self, other))"],
+    "__neg__": ["numpy.negative(self)"],
+    "__pos__": ["numpy.positive(self)"],
+    "__truediv__": ["numpy.true_divide(self, other)"],
+    "__rtruediv__": ["numpy.true_divide(other, self)"],
+    "__itruediv__": ["_replace_data(self, numpy.true_divide(self, other))"],
+    "__pow__": ["numpy.square(self) if other == 2 else numpy.power(self, other)", "numpy.power(self, other)"],
+    "__matmul__": ["numpy.matmul(self, other)"],
+}
+INPLACE = ("__iadd__", "__isub__", "__imul__", "__itruediv__")
+
+
+def dunder_obligations(ctx, rule, backends=("object", "sympy", "numpy"), names=None):
+    n = 0
+    for backend in backends:
+        rel, cls = BACKENDS[backend]
+        mf = facts(rel, ctx.repo)
+        for name, want in DUNDER_SPEC.items():
+            if names is not None and name not in names:
+                continue
+            fn = mf.method(cls, name)
+            if fn is None:
+                if backend == "numpy" and name not in ("__eq__", "__ne__"):
+                    continue  # ndarray's own operators route through __array_ufunc__
+                ctx.ob(rule, f"{cls}.{name}", False, "operator method missing", None, rel)
+                continue
+            body = [st for st in fn.body if not (isinstance(st, ast.Expr) and isinstance(st.value, ast.Constant))]
+            got = unparse(body[0].value) if len(body) == 1 and isinstance(body[0], ast.Return) and body[0].value is not None else unparse(fn)[:120]
+            ctx.ob(rule, f"{cls}.{name}", got in want, f"body is `{got}`, documented meaning is `{want[0]}`", None,
+                   f"{rel}:{fn.lineno}", sample={"method": name, "body": got})
+            n += 1
+    return n
